@@ -41,6 +41,7 @@ def run(ctx):
     import r_state
     ctx.run_rule("LZ", r_state.rule_LZ, cfgs)
     ctx.run_rule("ZP", r_state.rule_ZP, cfgs)
+    ctx.run_rule("TM", r_state.rule_TM, cfgs)
     import r_secrecy
     ctx.run_rule("ZL", r_secrecy.rule_ZL, [c for c in cfgs if c.endswith("-full")])
     import r_globals as _rg
